@@ -314,6 +314,68 @@ def rule_names(c, prog):
                     rec(y)
         rec(t)
         return ints[0] if len(ints) == 1 else None
+    def hint_clause(ty, ser, smap):
+        inst = f"{ty}:seq-length-hint"
+        calls = [x for x in core.walk_fn(ser) if x.get("k") == "MethodCall" and (core.callee_generic(x) or "").endswith("Serializer::serialize_seq")]
+        if not calls:
+            return
+        for call in calls:
+            arg = core.strip(call["args"][0])
+            if arg.get("k") == "Path" and (arg.get("def") or "").endswith("Option::None"):
+                c.ok(R, inst)
+                continue
+            inner = core.strip(core.call_args(arg)[0]) if arg.get("k") == "Call" and core.call_args(arg) else None
+            term = None
+            if inner is not None:
+                try:
+                    callee = core.callee_generic(inner) if inner.get("k") in ("MethodCall", "Call") else None
+                    if callee in prog.fns and prog.fns[callee].body is not None and len(prog.fns[callee].params) == 1:
+                        f = prog.fns[callee]
+                        I, term, _ = wire.run_region(prog, f.body, {f.params[0]["lid"]: ("in", "self")}, [], depth=6)
+                    else:
+                        env = {prm["lid"]: ("in", prm["name"]) for prm in ser.params}
+                        term = wire.WireInterp(prog, prims=[], depth=6).eval(inner, env)
+                except sym.Unsupported:
+                    term = None
+
+            def bits_of_self(t):
+                if not isinstance(t, tuple):
+                    return False
+                if t[0] == "app" and t[1].endswith("::bits") and len(t[2]) == 1:
+                    return t[2][0] == ("in", "self") or bits_of_self(t[2][0])
+                if t[0] == "fld" and t[2] == "bits":
+                    return True
+                return False
+
+            def find_count(t):
+                if isinstance(t, tuple):
+                    if t and t[0] == "app" and isinstance(t[1], str) and t[1].endswith("::count_ones"):
+                        return t[2][0]
+                    for y in t:
+                        r = find_count(y)
+                        if r is not None:
+                            return r
+                return None
+            a = find_count(term) if term is not None else None
+            mask = None
+            if a is not None and bits_of_self(a):
+                mask = -1
+            elif a is not None and a[0] == "op" and a[1] == "&":
+                l, r = a[2], a[3]
+                if bits_of_self(l) and r[0] == "c" and isinstance(r[1], int):
+                    mask = r[1]
+                elif bits_of_self(r) and l[0] == "c" and isinstance(l[1], int):
+                    mask = l[1]
+            c.sample({"rule": R, "type": ty, "seq_hint": repr(term)[:200], "mask": mask})
+            if mask is None:
+                c.not_decided.append(f"{ty}: the serialize_seq length hint has a form the count rule does not evaluate ({repr(term)[:80]})")
+                continue
+            missing = [nm for b, nm in sorted(smap.items()) if mask != -1 and not (mask & b)]
+            if missing:
+                c.violation(R, f"{ty}|hint|{','.join(missing)}", f"{ty}: the length announced to serialize_seq counts the set bits under mask {mask:#b}, which leaves out {missing} although Serialize writes an element for them: for a set holding only such a flag the announced length is 0 and serde_json emits `[]` followed by the element — text that cannot be parsed back", core.loc(call), instance=inst)
+            else:
+                c.ok(R, inst)
+
     for ty, flags in (("rbx_types::faces::Faces", "rbx_types::faces::FaceFlags"), ("rbx_types::axes::Axes", "rbx_types::axes::AxisFlags")):
         ser = prog.impl_fn(SER, ty, "serialize")
         dbg = prog.impl_fn("core::fmt::Debug", ty, "fmt")
@@ -353,7 +415,9 @@ def rule_names(c, prog):
             c.ok(R, f"{ty}:debug")
         else:
             c.violation(R, f"{ty}|debug", f"{ty}: Debug names {dmap} differ from the serde names {smap}", dbg.sp, instance=f"{ty}:debug")
-        # non-human: serialize_u8(bits) <-> from_bits(u8)
+        # the element count announced to serialize_seq must count every flag that is then written: serde_json closes
+        # the array at once for a count of 0, so an undercount of a one-element set produces text nobody can parse
+        hint_clause(ty, ser, smap)
     # Tags
     enc = prog.fn("rbx_types::tags::Tags::encode")
     dec = prog.fn("rbx_types::tags::Tags::decode")
@@ -407,9 +471,137 @@ def rule_names(c, prog):
         c.violation(R, "tags|separator", f"Tags::encode uses separators {e_sep}, decode splits on {d_sep}; both must use the NUL byte", enc.sp, instance="tags:separator")
 
 
+def rule_matcolors(c, prog):
+    """MaterialColors blob: a colour's position is its material's position in MATERIAL_ORDER, in encode and decode alike"""
+    R = "C17.names"
+    enc = prog.fn("rbx_types::material_colors::MaterialColors::encode")
+    dec = prog.fn("rbx_types::material_colors::MaterialColors::decode")
+    ORDER = "rbx_types::material_colors::MATERIAL_ORDER"
+    MAT = "rbx_types::material_colors::TerrainMaterials"
+
+    def peel(ty):
+        ty = ty or ""
+        while ty.startswith("&"):
+            ty = ty[5:] if ty.startswith("&mut ") else ty[1:]
+        return ty
+
+    def is_store(x, want):
+        """a write into the blob buffer (encode) or the colour map (decode)"""
+        if x.get("k") == "MethodCall":
+            rc = core.strip(x["recv"])
+            while rc.get("k") in ("Index", "AddrOf", "Unary"):
+                rc = core.strip(rc["l"] if rc.get("k") == "Index" else rc.get("e") or {})
+            rty = peel(rc.get("ty"))
+            if want == "blob":
+                return rty.startswith("alloc::vec::Vec<u8>") and x["m"] in ("push", "extend", "extend_from_slice", "insert", "append", "resize", "copy_from_slice", "clone_from_slice", "fill", "splice", "write_all")
+            return rty.startswith("alloc::collections::btree::map::BTreeMap<") and x["m"] in ("insert", "entry", "extend")
+        if x.get("k") in ("Assign", "AssignOp") and want == "blob":
+            l = core.strip(x["l"])
+            return l.get("k") == "Index"
+        return False
+
+    def mentions_order(n):
+        for y in core.walk(n):
+            if y.get("k") == "Path" and y.get("def") == ORDER:
+                return True
+            if y.get("k") == "Cast" and peel(core.strip(y["e"]).get("ty")) == MAT:
+                return True
+        return False
+
+    def loops(fn):
+        """(description, node covering source and body) for each iteration in the function: for-loops and statements
+        that drive a closure through an iterator chain"""
+        out = []
+        for n in core.walk_fn(fn):
+            if n.get("k") == "DropTemps":
+                continue
+            fl = core.as_for(n)
+            if fl is not None:
+                out.append(("for " + core.fingerprint(fl[1], 3)[:60], n, fl[2]))
+        for blk in core.walk_fn(fn):
+            if blk.get("k") != "Block":
+                continue
+            for st in blk["b"]["stmts"] + ([{"k": "Expr", "e": blk["b"]["expr"]}] if "expr" in blk["b"] else []):
+                e = st.get("e") or st.get("init")
+                if e is None or core.as_for(e) is not None or (e.get("k") == "DropTemps" and core.as_for(e) is not None):
+                    continue
+                cl = [y for y in core.walk(e) if y.get("k") == "Closure"]
+                if cl and core.strip(e).get("k") in ("MethodCall", "Call"):
+                    out.append(("chain " + core.fingerprint(e, 2)[:60], e, e))
+        return out
+
+    for fn, want, what in ((enc, "blob", "writes a colour into the blob"), (dec, "map", "files a colour under a material")):
+        inst = f"materialcolors:{fn.path.rsplit('::', 1)[-1]}-slots"
+        n_it = 0
+        bad = []
+        for desc, whole, body in loops(fn):
+            if not any(is_store(x, want) for x in core.walk(body)):
+                continue
+            n_it += 1
+            if not mentions_order(whole):
+                bad.append((desc, whole))
+        collects = [x for x in core.walk_fn(fn) if x.get("k") == "MethodCall" and x["m"] == "collect" and mentions_order(x)]
+        if bad:
+            for desc, whole in bad:
+                c.violation(R, f"materialcolors|{fn.path.rsplit('::', 1)[-1]}|slot-source", f"{fn.path}: the iteration `{desc}` {what} without referring to MATERIAL_ORDER or to the material's own discriminant: the slot it uses is a running count over something else, so a sparse map (some materials set, others not) puts colours into other materials' slots", core.loc(whole), instance=inst)
+        elif n_it or collects:
+            c.ok(R, inst)
+        else:
+            c.not_decided.append(f"{fn.path}: no iteration that {what} was recognised")
+
+    # constants: prefix length, bytes per colour, total length, as far as their forms are plain
+    def int_lits(n):
+        return [core.lit_value(y) for y in core.walk(n) if y.get("k") == "Lit" and y["lit"]["lk"] == "int"]
+    order_len = None
+    for y in core.walk_fn(dec):
+        if y.get("k") == "Path" and y.get("def") == ORDER:
+            m = re.search(r";\s*(\d+)\]", y.get("ty") or "")
+            if m:
+                order_len = int(m.group(1))
+    total = None
+    for y in core.walk_fn(dec):
+        if y.get("k") == "If":
+            cmp_ = [z for z in core.walk(y["c"]) if z.get("k") == "Binary" and z["op"] in ("!=", "==") and any(w.get("k") == "MethodCall" and w["m"] == "len" for w in core.walk(z))]
+            if cmp_ and int_lits(cmp_[0]):
+                total = int_lits(cmp_[0])[0]
+    chunk = skip = None
+    for y in core.walk_fn(dec):
+        if y.get("k") == "MethodCall" and y["m"] in ("chunks", "chunks_exact") and y["args"] and int_lits(y["args"][0]):
+            chunk = int_lits(y["args"][0])[0]
+        if y.get("k") == "MethodCall" and y["m"] == "skip" and y["args"] and int_lits(y["args"][0]) and any(z.get("k") == "MethodCall" and z["m"] in ("chunks", "chunks_exact") for z in core.walk(y["recv"])):
+            skip = int_lits(y["args"][0])[0]
+    prefix = None
+    for y in core.walk_fn(enc, into_closures=False):
+        if core.as_for(y) is not None:
+            continue
+    top = [st for st in enc.body["b"]["stmts"]] if enc.body.get("k") == "Block" else []
+    for st in top:
+        e = st.get("e")
+        if e is None or core.as_for(e) is not None:
+            continue
+        for y in core.walk(e):
+            if y.get("k") == "MethodCall" and y["m"] == "extend_from_slice" and is_store(y, "blob"):
+                a = core.strip(y["args"][0])
+                while a.get("k") in ("AddrOf",):
+                    a = core.strip(a["e"])
+                if a.get("k") == "Repeat":
+                    m = re.search(r";\s*(\d+)\]", a.get("ty") or "")
+                    prefix = (prefix or 0) + (int(m.group(1)) if m else 0)
+                elif a.get("k") == "Array":
+                    prefix = (prefix or 0) + len(a.get("es") or a.get("elems") or [])
+    c.sample({"rule": R, "materialcolors": {"order_len": order_len, "decode_total": total, "decode_chunk": chunk, "decode_skip": skip, "encode_prefix": prefix}})
+    if None in (order_len, total, chunk, skip, prefix):
+        c.not_decided.append(f"MaterialColors blob constants: a form was not recognised (order_len={order_len}, total={total}, chunk={chunk}, skip={skip}, prefix={prefix})")
+    elif chunk * skip == prefix and total == prefix + chunk * order_len and chunk == 3:
+        c.ok(R, "materialcolors:constants")
+    else:
+        c.violation(R, "materialcolors|constants", f"MaterialColors: encode writes a {prefix}-byte prefix, decode skips {skip} chunks of {chunk} bytes and demands {total} bytes for {order_len} materials; these must satisfy skip*chunk == prefix and total == prefix + 3*materials", dec.sp, instance="materialcolors:constants")
+
+
 def run(c, prog):
     rule_owned(c, prog)
     rule_text(c, prog)
     rule_pair(c, prog)
     rule_names(c, prog)
+    rule_matcolors(c, prog)
     c.not_decided += ["value-exact survival through serde_json / bincode / rmp-serde (third-party number formatting)", "re-encoding equality of the allValues.json fixture"]
